@@ -645,6 +645,11 @@ package mocker
 //@   requires patch_state: patch_state_ok()
 //@   assigns m.baseMocker.when, m.baseMocker.guard, m.baseMocker.imp, m.baseMocker.funcDef, running[m.baseMocker], stub_of[m.baseMocker], textmem, perm, mapof(patch.patches), anyfield(patch.patch, guard), anyfield(patch.Guard, applied),
 //@     | mutex_held[addr(patch.patchesLock)], rw_wheld[addr(memory.memoryAccessLock)], rw_rheld[addr(memory.memoryAccessLock)], placeholder_target[m.baseMocker.origin], varval, anyfield(When, matches), anyfield(When, defaultReturns), anyfield(When, curMatch), anyfield(BaseMatcher, results), m.baseMocker.when.matches[len(m.baseMocker.when.matches) : cap(m.baseMocker.when.matches)]
+//@   ensures stub_supersedes_callback: m.baseMocker.when != nil && (old(m.baseMocker.when) == nil ==> running[m.baseMocker] == stub_of[m.baseMocker])
+//@   ensures continues_existing_configuration: old(m.baseMocker.when) != nil ==> m.baseMocker.when == old(m.baseMocker.when)
+//@   ensures too_few_return_values_rejected_up_front: old(m.baseMocker.when) == nil ==> len(value) >= rt_numout(rt_of(typeof(m.methodIns)))
+//@   ensures entry_diverted_to_the_latest_instruction: old(m.baseMocker.when) == nil ==> m.baseMocker.guard != nil && typeof(m.baseMocker.guard) == typeid(*patchMockGuard) && unbox(m.baseMocker.guard, *patchMockGuard) != nil
+//@     | && diverted_to(unbox(m.baseMocker.guard, *patchMockGuard).patchGuard, rt_method_func(rt_of(typeof(m.structDef)), m.method), m.baseMocker.imp)
 //@   ensures patch_state_kept: patch.table_inv() && !patch.locked()
 //@   panics_only_if configuration_rejected: true
 //@   ensures_on_panic rejected_configuration_leaves_unmocked_targets_alone: patch.panic_frame()
